@@ -1,6 +1,6 @@
 """C15 — selection modes and path predicates are mutually consistent."""
 from .. import gen
-from . import common, longpaths
+from . import common, longpaths, pyjsonpath
 
 SPEC_THEOREM = 'Props/C15: first = head of all; array = [all]; mixed; exists iff non-empty; offsets delimit items; predicate paths'
 TRUSTED = ['Coq 8.16.1 kernel', 'translator', 'extraction + OCaml driver', 'Rust harness', 'specification PathSem.v (select_t / build_values / build_array_items) and the offset-faithful selector SelWalk.v tied by correspondence',
@@ -67,8 +67,8 @@ def judge(ctx):
     for v, p, is_pred, ids, pre in ctx.trials:
         o = {k: impl.get(i, 'missing') for k, i in ids.items()}
         case = {'doc': gen.vtext(v), 'path': p}
-        if any(x == 'panic' for x in o.values()):
-            continue   # C08 reports panics
+        if any(x == 'panic' or x.startswith('abort:') or x == 'timeout' for x in o.values()):
+            continue   # reported by the generic rule of check.py: a panic / death on a valid document is a violation
         if o['all'].startswith('err'):
             if not all(o[m].startswith('err') for m in ('first', 'array', 'mixed')):
                 ctx.violate('modes disagree on success/error', case=case, observed=o)
@@ -84,8 +84,18 @@ def judge(ctx):
                 if sp is None or sp[0] != pre + d0 or sp[1] != [x + len(pre) for x in o0]:
                     ctx.violate('selection into a buffer that already holds a result: data is not prefix ++ items or the offsets '
                                 'do not delimit the items in that buffer', case=case, mode=m, prefix=pre.hex()[:64], observed=[o[m], o[m + '_pre'][:300]])
+        # the all-mode items against the independent evaluator (props/pyjsonpath.py: documentation only, no model)
+        try:
+            oracle = [gen.enc(x) for x in pyjsonpath.select_all(v, pyjsonpath.parse_path_text(p))]
+            ctx.count('oracle_judged')
+        except pyjsonpath.Unjudged as u:
+            oracle = None
+            ctx.count('oracle_not_judged (the documentation does not define it)', str(u))
         if is_pred:
             want = sel['all'][0]
+            if oracle is not None and [want] != oracle:
+                ctx.violate('a predicate path does not yield the boolean its expression denotes (independent evaluator)', case=case,
+                            expected=[x.hex() for x in oracle], observed=o['all'][:300])
             for m in ('first', 'array', 'mixed', 'g', 'gf', 'ga'):
                 if sel[m][0] != want:
                     ctx.violate('a predicate path does not return the same single boolean in every mode', case=case, observed=o)
@@ -107,6 +117,10 @@ def judge(ctx):
         except gen.DecodeError as ex:
             ctx.violate('a selected item is not a complete canonical JSONB document', case=case, observed=o['all'], why=str(ex))
             continue
+        if oracle is not None and items != oracle:
+            ctx.violate('the all-mode items are not the items the path denotes (independent evaluator written from the documentation)', case=case,
+                        expected=[gen.vtext(gen.dec(x))[:120] for x in oracle][:8], observed=[gen.vtext(x)[:120] for x in vals][:8],
+                        n_expected=len(oracle), n_observed=len(items))
         fd, fo = sel['first']
         if (fd, fo) != ((items[0], [len(items[0])]) if items else (b'', [])):
             ctx.violate('first-mode is not the first item of all-mode (or nothing)', case=case, observed=o)
